@@ -422,3 +422,30 @@ func genProtoRun(t *rapid.T, protos []string) protoRun {
 	}
 	return p
 }
+
+type eckeygenSave = eckeygen.LocalPartySaveData
+
+// judgeNewCommitteeHonest: as judgeNewCommittee, but the deviator's own auxiliary entries are not compared.
+func (x *runCtx) judgeNewCommitteeHonest(only map[int]bool, dev int) *runProblem {
+	newNodes := x.net.Nodes[x.nOld:]
+	views, ecs := x.outputViews(newNodes)
+	for j := range views {
+		if !only[x.nOld+j] {
+			views[j], ecs[j] = nil, nil
+		}
+	}
+	if err := checkSharing(x.cv, views, x.newIDs.Keys(), x.p.NewT, nil); err != nil {
+		return &runProblem{"new-sharing", err.Error()}
+	}
+	for j, v := range views {
+		if v != nil && (v.Pub.X().Cmp(x.pubX) != 0 || v.Pub.Y().Cmp(x.pubY) != 0) {
+			return &runProblem{"key-changed", fmt.Sprintf("new member %d holds a group public key different from the old committee's", j)}
+		}
+	}
+	if !x.p.edd() {
+		if err := checkECAuxHonest(ecs, dev-x.nOld); err != nil {
+			return &runProblem{"new-aux", err.Error()}
+		}
+	}
+	return nil
+}
